@@ -385,3 +385,50 @@ def replay_towt(ki, ti, has_children, has_attrs):
                 if bad:
                     return ("parse(" + repr(doc) + ")" + (" on Wtp(extension_tags={'foo': ...})" if ext else ""), True, what)
     return ("parse() of tables with a " + kind.name + " node in the attribute region", False, "")
+
+
+# ---------------------------------------------------------------- a heading keeps its title whatever saved construct the title holds
+from wikitextprocessor.parser import process_text, subtitle_end_fn, subtitle_start_fn
+
+HDR_ARGS = ["x", "a\nb", "''y''", " ", "a\n\nb", "\n"]
+HDR_LEVEL_KINDS = {1: NodeKind.LEVEL1, 2: NodeKind.LEVEL2, 3: NodeKind.LEVEL3, 4: NodeKind.LEVEL4, 5: NodeKind.LEVEL5, 6: NodeKind.LEVEL6}
+
+
+def hdrarg_step(kind_i: int, ai: int, level: int, italic: bool) -> bool:
+    """`== <saved construct> ==`: the tokenizer emits the heading's start and end token for one (encoded) line; whatever the
+    construct's arguments contain - line breaks included - the end token finds its start token: the LEVELn node gets exactly
+    one argument (its title, the documented shape) and stays the open section."""
+    ctx.start_page("T")
+    root = WikiNode(NodeKind.ROOT, 0)
+    ctx.parser_stack = [root]
+    ctx.pre_parse = False
+    ctx.linenum = 3
+    ctx.suppress_special = False
+    reset_begline(ctx)
+    ctx.beginning_of_line = True
+    ctx.wsp_beginning_of_line = False
+    kind = CONSTRUCTS[kind_i]
+    arg = HDR_ARGS[ai]
+    ctx.cookies = [(kind, ("http://e.x " + arg,) if kind == "E" else ("n", arg), False)]
+    # the tokens of the line `== ''<cookie>'' ==` as process_text sees them
+    subtitle_start_fn(ctx, "<" + "=" * level)
+    node = ctx.parser_stack[-1]
+    ctx.beginning_of_line = False
+    process_text(ctx, ("''" if italic else "") + COOKIE + ("''" if italic else ""))
+    subtitle_end_fn(ctx, ">" + "=" * level)
+    return node.kind == HDR_LEVEL_KINDS[level] and len(node.largs) == 1 and ctx.parser_stack == [root, node] and node.children == []
+
+
+def replay_hdrarg(kind_i, ai, level, italic):
+    w = Wtp(quiet=True, quiet_output=True)
+    w.start_page("T")
+    kind = CONSTRUCTS[kind_i]
+    inner = {"T": "{{n|%s}}", "A": "{{{n|%s}}}", "L": "[[n|%s]]", "E": "[http://e.x %s]"}[kind] % HDR_ARGS[ai]
+    q = "''" if italic else ""
+    doc = "=" * level + " " + q + inner + q + " " + "=" * level + "\ntext\n"
+    if kind == "E" and "\n" in HDR_ARGS[ai]:
+        return ("parse(" + repr(doc) + ")", False, "an external link does not span lines: not a saved construct")
+    root = w.parse(doc)
+    secs = [c for c in root.children if isinstance(c, WikiNode) and c.kind == HDR_LEVEL_KINDS[level]]
+    bad = len(secs) != 1 or len(secs[0].largs) != 1
+    return ("parse(" + repr(doc) + ")", bad, f"the heading node has argument lists {[n.largs for n in secs]} (documented shape: exactly one, the title); top-level children {[c if isinstance(c, str) else c.kind.name for c in root.children]}")
